@@ -14,7 +14,12 @@ THEOREMS = ['C09.ofForm_eval', 'C09.ofForm_shape', 'C09.propagNeg_spec', 'C09.to
             'C09.stage_proofs_translated', 'C09.stage_proofs_conj_form', 'C09.stage_proofs_propag_neg', 'C09.stage_proofs_cnf',
             'C09.stage_proofs_clauses', 'C09.resolution_proof_conclusion', 'C09.prover_proof_conclusion_is_literal', 'C09.stage_data_is_the_data_slice',
             'C09.clause_proofs_translated', 'C09.clause_utilities_conclude', 'C09.clause_builders_prove',
-            'C09.resolution_proof_conclusion_closed', 'C09.prover_proof_conclusion_is_literal_closed', 'C09.prover_returns_proof_sound', 'C09.prover_returns_proof_complete', 'C09.prover_returns_proof_iff']
+            'C09.resolution_proof_conclusion_closed', 'C09.prover_proof_conclusion_is_literal_closed', 'C09.prover_returns_proof_sound', 'C09.prover_returns_proof_complete', 'C09.prover_returns_proof_iff',
+            # termination of the model (Props/C09b.lean, TautTotal.lean): the saturation loop terminates (duplicate-free list of canonical clauses
+            # over the initial literals), explicit fuel bound; the completeness statements hold with no hypothesis that the model answers
+            'C09.model_fuel_monotone', 'C09.saturation_terminates', 'C09.resolution_total', 'C09.proveTautology_total', 'C09.prover_total',
+            'C09.prover_decides_bound', 'C09.prover_decides_total', 'C09.verdict_spec', 'C09.prover_text_decides_total',
+            'C09.prover_returns_proof_complete_total', 'C09.prover_returns_proof_iff_total', 'C09.Ex.thresholds']
 
 
 def all_forms(size, nv):
@@ -127,7 +132,7 @@ def clauses_sat(cls):
 
 def run(rep):
     rng = random.Random(rep.seed * 1000003 + 9)
-    ok, detail = core.proof_gate(rep, 'Pi2.Props.C09', THEOREMS)
+    ok, detail = core.proof_gate(rep, 'Pi2.Props.C09b', THEOREMS)
     quick = rep.tier == 'quick'
     forms = []
     if quick:
